@@ -49,7 +49,7 @@ pub fn handle(op: &str, req: &Value) -> Option<Value> {
             let mreal = (probe as i128 + (m - l)).clamp(0, 1 << 40) as usize;
             let compress = req["compress"].as_bool().unwrap_or(false);
             let lc = req["compressed_len"].as_u64().unwrap_or(0) as i128;
-            if compress && m < l && m >= 1 + lc {
+            if compress && lc < l && m >= 1 + lc {
                 // witness shape "fits only once compressed": a highly compressible message and a limit between the two sizes
                 use tensor_chain::network::RequestVote;
                 let big = Message::RequestVote(RequestVote { term: 1, candidate_id: "a".repeat(4000), last_log_index: 0, last_log_term: 0,
@@ -58,7 +58,8 @@ pub fn handle(op: &str, req: &Value) -> Option<Value> {
                 let mut probe_c = LengthDelimitedCodec::with_compression(1 << 20, CompressionConfig::default());
                 probe_c.set_compression_enabled(true);
                 let comp = probe_c.encode_v2(&big).map(|f| f.len() - 4).unwrap_or(0);
-                let limit = (comp + ser) / 2;
+                // below the serialized size: midway between the two sizes; at or above it: keep the witness's distance from the serialized size
+                let limit = if m < l { (comp + ser) / 2 } else { ser + (m - l) as usize };
                 let mut codec = LengthDelimitedCodec::with_compression(limit, CompressionConfig::default());
                 codec.set_compression_enabled(true);
                 let bad = match codec.encode_v2(&big) {
